@@ -376,6 +376,12 @@ def campaign(ctx, n):
         bump('restarts', restarts); bump('trials_with_restarts', int(restarts > 0))
         # the C07 statements (and C01's single-incarnation provenance) are about restart-free runs: a restarted splitter counts from 0 again
         vs = netfeed.send_oracle(pubmid) if restarts else oracles(t, handed, pubmid, pubs) + netfeed.oracles(t, handed, pubmid) + netfeed.send_oracle(pubmid)
+        # whatever was restarted: ONE send call of the balanced splitter puts its wire messages on ONE output (C07_one_output holds in every state)
+        by_ev = {}
+        for e_, i_, k_, mid_, f_, c_ in pubs:
+            if i_ == 0: by_ev.setdefault(e_, set()).add(k_)
+        for e_, ks in sorted(by_ev.items()):
+            if len(ks) > 1: vs = vs + [('netbal-two-outputs-one-call', f"event {e_}: one send() of the balanced splitter published on outputs {sorted(ks)}")]; break
         seen = set()
         for key, what in vs:
             if key in seen: continue
